@@ -197,8 +197,8 @@ def materialise(w, case, hi_byte=0xFF, extra=None):
     elif k in ("dir", "mapdir"):
         w.mkdir(n)
         if ik == "mapfile":
-            w.write(n + "/" + m + ".gophermap", map_file(b"leaf"))
-            w.write(n + "/leaf", DOC % b"leaf")
+            w.write(n + "/" + m + ".gophermap", map_file(conc(case["m"], hi_byte)))
+            w.write(n + "/" + m, DOC % b"linked")
         elif ik == "dir":
             w.write(n + "/" + m + "/leaf", DOC % b"leaf")
         else:
@@ -212,6 +212,18 @@ def materialise(w, case, hi_byte=0xFF, extra=None):
         w.write(n, _zip_bytes(members))
     else:
         raise ValueError("unknown kind %r" % (k,))
+    if k in ("dir", "mapdir"):                    # site map (Links!SiteTargets): absolute links to children and grandchildren
+        base = "/" + fs_name_of(case) + "/"
+        rows = [("1" if ik in ("dir", "mapfile") else "0", base + case["m"] + (".gophermap" if ik == "mapfile" else ""))]
+        if ik == "dir":
+            rows.append(("0", rows[0][1] + "/leaf"))
+        if ik == "mapfile":
+            rows.append(("0", base + case["m"]))
+        lines = [b"site map"]
+        for typ, sel in rows:
+            if sel == sel.strip() and "\t" not in sel and "\n" not in sel:
+                lines.append(typ.encode() + b"x\t" + conc(sel, hi_byte))
+        w.write("zm.gophermap", b"\n".join(lines) + b"\n")
     if extra:
         extra(w)
 
